@@ -180,11 +180,15 @@ static ShimRet x_poll(ShimSource *s, size_t n, int timeout) {
   }
   std::vector<reproc::event::source> v;
   v.reserve(n);
-  std::vector<reproc::process> empties;
-  empties.reserve(n);
   for (size_t i = 0; i < n; i++) {
     if (s[i].process) v.push_back(reproc::event::source{ std::move(*(reproc::process *) s[i].process), s[i].interests, s[i].events });
-    else { v.push_back(reproc::event::source{ reproc::process(), s[i].interests, s[i].events }); }
+    else {
+      // a source without a process: what a moved-from reproc::process is (no C handle behind it).  Made from zeroed storage so
+      // that no allocation happens here that the C binding would not make as well.
+      alignas(reproc::process) char raw[sizeof(reproc::process)];
+      memset(raw, 0, sizeof raw);
+      v.push_back(reproc::event::source{ std::move(*reinterpret_cast<reproc::process *>(raw)), s[i].interests, s[i].events });
+    }
   }
   std::error_code ec = reproc::poll(v.data(), n, reproc::milliseconds(timeout));
   long long cnt = 0;
